@@ -92,6 +92,10 @@ func (r *renderer) docLines(t *TypeDecl) []string {
 		if ir.Ptr {
 			amp = "&"
 		}
+		if ir.Raw != "" {
+			d = append(d, "// @implements "+amp+ir.Raw)
+			continue
+		}
 		d = append(d, "// @implements "+amp+r.qual(ir.Iface.Pkg)+ir.Iface.Name)
 	}
 	if t.Immutable {
@@ -191,6 +195,9 @@ func (r *renderer) typeDecl(t *TypeDecl) {
 		r.emit(")")
 	}
 	for _, ir := range t.ImplRefs {
+		if ir.Raw != "" {
+			continue
+		}
 		if ir.Iface.Pkg != r.f.Pkg || r.f.Kind == FileXTest {
 			// the annotation's qualifier must be bound by an import of this file
 			r.emit("")
